@@ -598,7 +598,17 @@ func (s *verifC01SvcSim) deliver(id ch.NodeID, c int, m ch.Meta) verifC01SvcDeli
 	}
 	// The metadata passed the machine's fence validation and is now the
 	// node's view (also when the quorum install behind it failed: the node is
-	// then simply not ready).
+	// then simply not ready). Confirm it on the runtime itself, so that the
+	// judgement context below never rests on the harness's model alone.
+	after, loaded := s.probe(id, c)
+	if !loaded || after.ChannelEpoch != m.Epoch || after.LeaderEpoch != m.LeaderEpoch {
+		if err == nil {
+			s.t.Fatalf("VERIF-MACHINERY ApplyMeta(%s) on node %d returned nil but the runtime shows loaded=%v %+v", verifC01SvcMetaTag(m), id, loaded, after)
+		}
+		s.flags["metadata delivery failed before it reached the channel state (not counted as known)"] = true
+		d.refused = true
+		return d
+	}
 	d.accepted = true
 	if !hasKnown || verifC01SvcFenceOrder(m, known) > 0 || m.RouteGeneration >= known.RouteGeneration {
 		n.known[c] = m
